@@ -17,7 +17,7 @@ def _ceildiv(a, b):
     return -((-a) // b)
 
 
-def affine_eval_flag(e, dims, syms, flags):
+def affine_eval_flag(e, dims, syms, flags, trunc=False):
     """Own affine evaluation (floor semantics, like refsem.affine_eval) that additionally flags a `mod` whose
     left operand is negative with a non-zero remainder (the case in which a truncating remainder differs)."""
     n = type(e).__name__
@@ -28,10 +28,12 @@ def affine_eval_flag(e, dims, syms, flags):
     if n == "AffineSymExpr":
         return syms[e.position]
     if n == "AffineBinaryOpExpr":
-        a, b = affine_eval_flag(e.lhs, dims, syms, flags), affine_eval_flag(e.rhs, dims, syms, flags)
+        a, b = affine_eval_flag(e.lhs, dims, syms, flags, trunc), affine_eval_flag(e.rhs, dims, syms, flags, trunc)
         k = e.kind.name
         if k in ("Add", "Mul"):
             r = a + b if k == "Add" else a * b
+            if trunc:  # the wrong-behaviour model mirrors the lowered code: wrapping index arithmetic
+                return S(U(r, INDEX_W), INDEX_W)
             if not (I64_MIN <= r <= I64_MAX):
                 # affine maps denote mathematical integer functions; a value that does not fit `index` is outside
                 # the modelled semantics (a lowering to wrapping arithmetic may legitimately differ)
@@ -42,6 +44,8 @@ def affine_eval_flag(e, dims, syms, flags):
         if k == "Mod":
             if a < 0 and a % b != 0:
                 flags.add("affine-mod-negative-lhs")
+                if trunc:  # KNOWN-WRONG MODEL of lower-affine: `mod` as a truncating signed remainder
+                    return a % b - b
             return a % b
         if k == "FloorDiv":
             return a // b
@@ -62,6 +66,7 @@ class M16(refsem.Machine):
         self.fault_env = None
         self.trap_executed: set = set()   # (op name, result name hint) of executed trapping-capable ops
         self.for_execs = 0
+        self.mod_trunc = False     # evaluate affine `mod` as arith.remsi would (wrong-behaviour model, classifier only)
 
     # ------------------------------------------------------------------ hooks
     def _flag_perfect_nest(self, op, env):
@@ -166,8 +171,31 @@ class M16(refsem.Machine):
                 k = {"affine.apply": 0, "affine.load": 1, "affine.store": 2}[n]
                 m = self._prop(op, "map").data
                 vals = self._idx_vals([env[o] for o in op.operands[k:]])
-                for e in m.results:
-                    affine_eval_flag(e, vals[:m.num_dims], vals[m.num_dims:], self.flags)
+                rs = [affine_eval_flag(e, vals[:m.num_dims], vals[m.num_dims:], self.flags, self.mod_trunc)
+                      for e in m.results]
+                if self.mod_trunc:
+                    if n == "affine.apply":
+                        env[op.results[0]] = U(rs[0], INDEX_W)
+                        return None
+                    h, shape = env[op.operands[k - 1]]
+                    if n == "affine.load":
+                        # the lowering drops loads whose result is unused, so an out-of-bounds load only matters
+                        # when its value is observed: model it as poison
+                        try:
+                            env[op.results[0]] = self.mem[h][self._lin(shape, [U(r, INDEX_W) for r in rs])]
+                        except Undefined:
+                            self.flags.add("model-oob-load")
+                            env[op.results[0]] = POISON
+                        return None
+                    lin = self._lin(shape, [U(r, INDEX_W) for r in rs])
+                    if n == "affine.load":
+                        env[op.results[0]] = self.mem[h][lin]
+                    else:
+                        v = env[op.operands[0]]
+                        self.mem[h][lin] = v
+                        if h[0] == "arg":
+                            self.log.append(("store", h, lin, observe(v)))
+                    return None
             elif n == "affine.min":
                 m = self._prop(op, "map").data
                 vals = self._idx_vals([env[o] for o in op.operands])
@@ -244,10 +272,11 @@ class M16(refsem.Machine):
             raise
 
 
-def run16(module, fname, args, step_limit=200000):
+def run16(module, fname, args, step_limit=200000, mod_trunc=False):
     """Like refsem.run but on M16; returns (outcome, machine) with outcome =
-    ("ok", results, log) | ("undef", msg) | ("unsup", msg) | ("steps",)."""
+    ("ok", results, log) | ("undef", msg) | ("unsup", msg) | ("steps",) | ("badir", msg)."""
     m = M16(module, step_limit)
+    m.mod_trunc = mod_trunc
     real, margs = [], []
     for k, a in enumerate(args):
         if isinstance(a, (tuple, list)) and a and a[0] == "memref":
@@ -269,3 +298,9 @@ def run16(module, fname, args, step_limit=200000):
         return ("unsup", str(e)), m
     except StepLimit:
         return ("steps",), m
+    except KeyError as e:
+        k = e.args[0] if e.args else None
+        if hasattr(k, "uses") and hasattr(k, "type"):
+            # an operand that no executed op / block defined: the IR uses a value that does not dominate its use
+            return ("badir", f"use of a value that is not defined on this path: {k}"[:200]), m
+        raise
